@@ -45,6 +45,9 @@ type c08Item struct {
 	canon   []byte // canonical reference bytes
 	msg     []byte // message to decode
 	decoded []byte // canon of the expected decoded value
+	// error path: a message lacking required fields and the names one of which the error must carry
+	missMsg   []byte
+	missNames []string
 }
 
 func newC08Item(r *gen.Rand, s *schema.Struct) *c08Item {
@@ -61,6 +64,19 @@ func newC08Item(r *gen.Rand, s *schema.Struct) *c08Item {
 		it.msg = nil
 	} else {
 		it.decoded = ref.Canon(s, exp.Elem(), ref.CmpOpts{})
+	}
+	// a message that omits every top-level required field (if the type has any)
+	var names []string
+	for _, f := range s.Fields {
+		if f.Req == schema.Required {
+			names = append(names, f.Name)
+		}
+	}
+	if len(names) > 0 {
+		it.missNames = names
+		it.missMsg = ref.EncodeWith(s, it.v.Elem(), &ref.EncodeOpts{Omit: func(st *schema.Struct, f *schema.Field) bool {
+			return st == s && f.Req == schema.Required
+		}})
 	}
 	return it
 }
@@ -88,6 +104,26 @@ func typeAddr(t reflect.Type) uintptr {
 
 // use runs one API call on an item and returns a mismatch description or "".
 func (it *c08Item) use(op int) string {
+	if op%7 == 6 && it.missMsg != nil {
+		// error path: the same protocol error as in a sequential execution
+		r := fDecode(it.missMsg, reflect.New(it.s.Go).Interface())
+		if r.panicked() {
+			return fmt.Sprintf("DecodeObject of a message without its required fields panicked: %v [%s]", r.pv, shortStack(r.stack))
+		}
+		if r.err == nil {
+			return "DecodeObject accepted a message without its required fields"
+		}
+		named := false
+		for _, n := range it.missNames {
+			if strings.Contains(r.err.Error(), fmt.Sprintf("%q", n)) {
+				named = true
+			}
+		}
+		if !named {
+			return fmt.Sprintf("DecodeObject error for missing required fields %v differs from the sequential one: %v", it.missNames, r.err)
+		}
+		return ""
+	}
 	switch op % 5 {
 	case 0:
 		if r := fSize(it.v.Interface()); r.panicked() || r.n != it.size {
@@ -282,7 +318,7 @@ func runC08(c *harness.Ctx, idx int) {
 			}
 			for _, oi := range order {
 				it := fresh[assign[g][oi]]
-				op := gr.Intn(5)
+				op := gr.Intn(7)
 				if m := it.use(op); m != "" {
 					note("first use (op %d) of fresh type %s by goroutine %d: %s", op, it.s.Describe(), g, m)
 				}
@@ -329,7 +365,7 @@ func runC08(c *harness.Ctx, idx int) {
 				default:
 				}
 				it := steady[gr.Intn(len(steady))]
-				if m := it.use(gr.Intn(5)); m != "" {
+				if m := it.use(gr.Intn(7)); m != "" {
 					note("steady-state use of %s: %s", it.s.Name, m)
 				}
 				completed.Add(1)
